@@ -840,5 +840,10 @@ def c04_invariant(ctx):
     return _r(ctx)
 
 
-RULES = [c04_invariant, c01_media_chain, no_stale, lazy_def_use, location, formulas_and_degrees, identities,
+def c04_chief_ray(ctx):
+    """shared with C04: the paraxial chief ray of the maximum (radial) field"""
+    from .C04 import chief_ray as _r
+    return _r(ctx)
+
+RULES = [c04_chief_ray, c04_invariant, c01_media_chain, no_stale, lazy_def_use, location, formulas_and_degrees, identities,
          operand_wrap]
